@@ -12,25 +12,25 @@ import (
 type Bool struct{ v atomic.Bool }
 
 func (b *Bool) Load() bool {
-	vrt.ShimOps++
+	vrt.CountShim()
 	vrt.Point()
 	vrt.TouchAddr(unsafe.Pointer(b), false)
 	return b.v.Load()
 }
 func (b *Bool) Store(x bool) {
-	vrt.ShimOps++
+	vrt.CountShim()
 	vrt.Point()
 	vrt.TouchAddr(unsafe.Pointer(b), true)
 	b.v.Store(x)
 }
 func (b *Bool) Swap(x bool) bool {
-	vrt.ShimOps++
+	vrt.CountShim()
 	vrt.Point()
 	vrt.TouchAddr(unsafe.Pointer(b), true)
 	return b.v.Swap(x)
 }
 func (b *Bool) CompareAndSwap(o, n bool) bool {
-	vrt.ShimOps++
+	vrt.CountShim()
 	vrt.Point()
 	vrt.TouchAddr(unsafe.Pointer(b), true)
 	return b.v.CompareAndSwap(o, n)
@@ -40,31 +40,31 @@ func (b *Bool) CompareAndSwap(o, n bool) bool {
 type Int64 struct{ v atomic.Int64 }
 
 func (b *Int64) Load() int64 {
-	vrt.ShimOps++
+	vrt.CountShim()
 	vrt.Point()
 	vrt.TouchAddr(unsafe.Pointer(b), false)
 	return b.v.Load()
 }
 func (b *Int64) Store(x int64) {
-	vrt.ShimOps++
+	vrt.CountShim()
 	vrt.Point()
 	vrt.TouchAddr(unsafe.Pointer(b), true)
 	b.v.Store(x)
 }
 func (b *Int64) Add(d int64) int64 {
-	vrt.ShimOps++
+	vrt.CountShim()
 	vrt.Point()
 	vrt.TouchAddr(unsafe.Pointer(b), true)
 	return b.v.Add(d)
 }
 func (b *Int64) Swap(x int64) int64 {
-	vrt.ShimOps++
+	vrt.CountShim()
 	vrt.Point()
 	vrt.TouchAddr(unsafe.Pointer(b), true)
 	return b.v.Swap(x)
 }
 func (b *Int64) CompareAndSwap(o, n int64) bool {
-	vrt.ShimOps++
+	vrt.CountShim()
 	vrt.Point()
 	vrt.TouchAddr(unsafe.Pointer(b), true)
 	return b.v.CompareAndSwap(o, n)
@@ -74,31 +74,31 @@ func (b *Int64) CompareAndSwap(o, n int64) bool {
 type Int32 struct{ v atomic.Int32 }
 
 func (b *Int32) Load() int32 {
-	vrt.ShimOps++
+	vrt.CountShim()
 	vrt.Point()
 	vrt.TouchAddr(unsafe.Pointer(b), false)
 	return b.v.Load()
 }
 func (b *Int32) Store(x int32) {
-	vrt.ShimOps++
+	vrt.CountShim()
 	vrt.Point()
 	vrt.TouchAddr(unsafe.Pointer(b), true)
 	b.v.Store(x)
 }
 func (b *Int32) Add(d int32) int32 {
-	vrt.ShimOps++
+	vrt.CountShim()
 	vrt.Point()
 	vrt.TouchAddr(unsafe.Pointer(b), true)
 	return b.v.Add(d)
 }
 func (b *Int32) Swap(x int32) int32 {
-	vrt.ShimOps++
+	vrt.CountShim()
 	vrt.Point()
 	vrt.TouchAddr(unsafe.Pointer(b), true)
 	return b.v.Swap(x)
 }
 func (b *Int32) CompareAndSwap(o, n int32) bool {
-	vrt.ShimOps++
+	vrt.CountShim()
 	vrt.Point()
 	vrt.TouchAddr(unsafe.Pointer(b), true)
 	return b.v.CompareAndSwap(o, n)
@@ -108,25 +108,25 @@ func (b *Int32) CompareAndSwap(o, n int32) bool {
 type Uint64 struct{ v atomic.Uint64 }
 
 func (b *Uint64) Load() uint64 {
-	vrt.ShimOps++
+	vrt.CountShim()
 	vrt.Point()
 	vrt.TouchAddr(unsafe.Pointer(b), false)
 	return b.v.Load()
 }
 func (b *Uint64) Store(x uint64) {
-	vrt.ShimOps++
+	vrt.CountShim()
 	vrt.Point()
 	vrt.TouchAddr(unsafe.Pointer(b), true)
 	b.v.Store(x)
 }
 func (b *Uint64) Add(d uint64) uint64 {
-	vrt.ShimOps++
+	vrt.CountShim()
 	vrt.Point()
 	vrt.TouchAddr(unsafe.Pointer(b), true)
 	return b.v.Add(d)
 }
 func (b *Uint64) CompareAndSwap(o, n uint64) bool {
-	vrt.ShimOps++
+	vrt.CountShim()
 	vrt.Point()
 	vrt.TouchAddr(unsafe.Pointer(b), true)
 	return b.v.CompareAndSwap(o, n)
@@ -136,25 +136,25 @@ func (b *Uint64) CompareAndSwap(o, n uint64) bool {
 type Uint32 struct{ v atomic.Uint32 }
 
 func (b *Uint32) Load() uint32 {
-	vrt.ShimOps++
+	vrt.CountShim()
 	vrt.Point()
 	vrt.TouchAddr(unsafe.Pointer(b), false)
 	return b.v.Load()
 }
 func (b *Uint32) Store(x uint32) {
-	vrt.ShimOps++
+	vrt.CountShim()
 	vrt.Point()
 	vrt.TouchAddr(unsafe.Pointer(b), true)
 	b.v.Store(x)
 }
 func (b *Uint32) Add(d uint32) uint32 {
-	vrt.ShimOps++
+	vrt.CountShim()
 	vrt.Point()
 	vrt.TouchAddr(unsafe.Pointer(b), true)
 	return b.v.Add(d)
 }
 func (b *Uint32) CompareAndSwap(o, n uint32) bool {
-	vrt.ShimOps++
+	vrt.CountShim()
 	vrt.Point()
 	vrt.TouchAddr(unsafe.Pointer(b), true)
 	return b.v.CompareAndSwap(o, n)
@@ -167,25 +167,25 @@ type Value = atomic.Value
 type Pointer[T any] struct{ v atomic.Pointer[T] }
 
 func (p *Pointer[T]) Load() *T {
-	vrt.ShimOps++
+	vrt.CountShim()
 	vrt.Point()
 	vrt.TouchAddr(unsafe.Pointer(p), false)
 	return p.v.Load()
 }
 func (p *Pointer[T]) Store(x *T) {
-	vrt.ShimOps++
+	vrt.CountShim()
 	vrt.Point()
 	vrt.TouchAddr(unsafe.Pointer(p), true)
 	p.v.Store(x)
 }
 func (p *Pointer[T]) Swap(x *T) *T {
-	vrt.ShimOps++
+	vrt.CountShim()
 	vrt.Point()
 	vrt.TouchAddr(unsafe.Pointer(p), true)
 	return p.v.Swap(x)
 }
 func (p *Pointer[T]) CompareAndSwap(o, n *T) bool {
-	vrt.ShimOps++
+	vrt.CountShim()
 	vrt.Point()
 	vrt.TouchAddr(unsafe.Pointer(p), true)
 	return p.v.CompareAndSwap(o, n)
